@@ -7,6 +7,8 @@ export GOFLAGS=-mod=mod GOPROXY=off GOSUMDB=off GOTOOLCHAIN=local
 cd /verif || exit 2
 for d in seeded/*/; do
   m=$(basename "$d"); prop=${m%%-*}
+  # (a change may be reported by the check of another property than the one its author was given)
+  cw=$(sed -n 's/.*"check_with": *"\(C[0-9][0-9]\)".*/\1/p' "$d/meta.json" | head -1); [ -n "$cw" ] && prop=$cw
   f=$d/patch.diff; [ -f "$d/patch.adapted.diff" ] && f=$d/patch.adapted.diff
   if grep -q '"obsolete"' "$d/meta.json"; then echo "$m: OBSOLETE (see meta.json)"; continue; fi
   if [ -n "$(git -C /repo status --porcelain --untracked-files=no)" ]; then echo "repo dirty"; exit 2; fi
